@@ -76,6 +76,23 @@ class Taint:
 
     # ---- fate of a tainted value
 
+    def _closure_fate(self, f, c, p, seen, depth, hops=0):
+        """Where does the value a closure returns go?  `p` is the closure, or a use of the local it was bound to (`let handler = |..| ..; x.map(handler)`)."""
+        gp = c.parent_of.get(id(p))
+        if gp is not None and gp.get("k") in ("mcall", "call"):
+            name = gp.get("name", "")
+            if name in ("sorted_by", "sorted_by_key", "sort_by", "sort_by_key", "filter", "any", "all", "position", "find", "take_while", "skip_while", "retain", "max_by_key", "min_by_key"):
+                return {"ok:predicate/key-only"}
+            if name in ("for_each", "inspect", "try_for_each"):
+                return {"ok:dropped"}
+            return self.fate(f, c, gp, seen, depth + 1)
+        if gp is not None and gp.get("k") == "let" and gp.get("init") is p and (gp.get("pat") or {}).get("k") == "p_bind" and hops < 3:
+            out = set()
+            for use in fb.local_uses(f.body, gp["pat"]["id"]):
+                out |= self._closure_fate(f, c, use, seen, depth + 1, hops + 1)
+            return out or {"ok:unused"}
+        return {"escapes:closure"}
+
     def fate(self, f, c, node, seen, depth=0):
         """Set of fate strings for the tainted value produced by `node`."""
         if depth > 60 or id(node) in seen:
@@ -145,15 +162,7 @@ class Taint:
             return out or {"ok:unused"}
         if k == "closure":
             # value returned from a closure: flows into whatever consumes the closure
-            gp = c.parent_of.get(id(p))
-            if gp is not None and gp.get("k") in ("mcall", "call"):
-                name = gp.get("name", "")
-                if name in ("sorted_by", "sorted_by_key", "sort_by", "sort_by_key", "filter", "any", "all", "position", "find", "take_while", "skip_while", "retain", "max_by_key", "min_by_key"):
-                    return {"ok:predicate/key-only"}
-                if name in ("for_each", "inspect", "try_for_each"):
-                    return {"ok:dropped"}
-                return self.fate(f, c, gp, seen, depth + 1)
-            return {"escapes:closure"}
+            return self._closure_fate(f, c, p, seen, depth)
         if k == "block":
             if p.get("e") is node:
                 return self.fate(f, c, p, seen, depth + 1)
